@@ -199,6 +199,10 @@ def parse(path: str) -> UnitSpec:
                 u.mode = rest
             elif head == "plainfn":
                 u.order.append(("plainfn", (src, rest.strip())))
+            elif head == "plain":
+                # plain (struct|enum|const|static|fn|impl) NAME-or-HEADER : the whole item verbatim, attributes included (rust mode)
+                k, _, n = rest.partition(" ")
+                u.order.append(("plain", (src, k.strip(), n.strip())))
             elif head == "wrap":
                 cur = WrapSpec(rest.strip(), src)
                 u.order.append(("wrap", cur))
